@@ -227,7 +227,7 @@ def oracle(ctx, c, r, dis):
             break
         # tolerance: float accumulation over k steps of three maps (each cell ~ 2^-24 relative per map, errors of
         # random sign) plus the tails cut at the border; 3-point: the recurrence is exact
-        tol = Fraction(2, 10 ** 4) * size + 2 * cum_edge * Fraction(n * n, 4)
+        tol = (Fraction(2, 10 ** 4) + k * Fraction(2, 10 ** 7)) * size + 2 * cum_edge * Fraction(n * n, 4)
         err = max(abs(guu - m[0]), abs(guv - m[1]), abs(gvv - m[2]))
         if exact_rec:
             worst = max(worst, err / size)
@@ -239,7 +239,11 @@ def oracle(ctx, c, r, dis):
                           sig=dict(sig, clause="recurrence"))
             return
         # charge
-        ctol = (Fraction(1, 10 ** 4) if exact_rec else e1 * k * Fraction(5, 100) + Fraction(1, 10 ** 4)) * scale + cum_edge
+        # charge: rounding of the interpolation weights is biased per row and adds up linearly (three maps per step, a few
+        # 2^-24 each); 4-point stencil with damping: the proven defect (C01_fp4_defect) is at most e1 * |c4| * (charge in the
+        # four switch rows) per step with |c4| < 1, i.e. at most compound growth at rate e1
+        round_tol = (Fraction(1, 10 ** 5) + k * Fraction(1, 10 ** 6)) * scale
+        ctol = round_tol + cum_edge + (0 if exact_rec else scale * ((1 + e1) ** k - 1))
         if abs(g0 - scale) > ctol:
             ctx.violation("impl-oracle", "charge drifts at step %d" % k, case=c.replay(), observed=float(g0), expected=float(scale),
                           sig=dict(sig, clause="charge"))
@@ -362,42 +366,53 @@ def fp_only(ctx, dis):
 
 
 def binary_run(ctx):
-    """thorough tier: the inovesa binary without impedance; /BunchLength and /EnergySpread settle at 1"""
+    """thorough tier: the inovesa binary without impedance (VacuumGap=0); /BunchLength and /EnergySpread, one record per
+    synchrotron period (stroboscopic), over 10 damping times: monotone approach and a final value of 1 within the
+    discretisation error"""
     import subprocess, tempfile, os, vp_build
     tg = ctx.build(harness=("impl_fp", "h5cat"), want_binary=True)
     td = tempfile.mkdtemp(prefix="c04_")
     for deriv in (3, 4):
         for zoom in (0.5, 2.0):
             out = os.path.join(td, "r%d_%s.h5" % (deriv, zoom))
-            cmd = ["timeout", "300", tg["inovesa"], "--cl", "-1", "--gui", "false", "-o", out, "--GridSize", "64", "--PhaseSpaceSize", "%g" % (6 * max(zoom, 1)),
-                   "--VacuumGap", "0", "--InitialDistZoom", str(zoom), "--steps", "50", "--outstep", "25", "--rotations", "40",
-                   "--DampingTime", "0.002", "--SynchrotronFrequency", "8000", "--DerivationType", str(deriv), "--verbose", "false",
-                   "--tracking", "", "--RenormalizeCharge", "0"]
-            r = subprocess.run(cmd, capture_output=True, text=True, env=vp_build.xdg_env())
+            N = 50
+            cmd = ["timeout", "600", tg["inovesa"], "--gui", "false", "-o", out, "-s", "64", "-P", "%g" % (14 * max(zoom, 1)),
+                   "-G", "0", "--InitialDistZoom", str(zoom), "-N", str(N), "-n", str(N), "-T", "80", "-d", "0.002", "-f", "8000",
+                   "--RenormalizeCharge=-1", "--derivation", str(deriv), "-v", "false"]
+            r = subprocess.run(cmd, capture_output=True, text=True, env=vp_build.xdg_env(), cwd=td)
             if not os.path.exists(out):
-                ctx.notes.append("binary run produced no file (rc=%d): %s" % (r.returncode, (r.stdout + r.stderr)[-300:]))
-                continue
+                raise RuntimeError("binary run produced no file (rc=%d): %s" % (r.returncode, (r.stdout + r.stderr)[-300:]))
             vals = {}
             for ds in ("/BunchLength/data", "/EnergySpread/data"):
                 h = subprocess.run(["timeout", "60", tg["h5cat"], out, "--values", "--only", ds], capture_output=True, text=True)
                 nums = []
-                for tok in h.stdout.split():
-                    try:
-                        nums.append(float.fromhex(tok)) if "0x" in tok else None
-                    except ValueError:
-                        pass
+                for line in h.stdout.splitlines():
+                    pp = line.split()
+                    if len(pp) > 2 and pp[0] == "data" and pp[1] == ds:
+                        nums = [float.fromhex(t) for t in pp[2:]]
                 vals[ds] = nums
-            ctx.notes.append("binary deriv=%d zoom=%s: last BunchLength=%s EnergySpread=%s (n=%d records)" % (
-                deriv, zoom, vals["/BunchLength/data"][-1:] , vals["/EnergySpread/data"][-1:], len(vals["/BunchLength/data"])))
+            ctx.notes.append("binary deriv=%d zoom=%s: records=%d first/last BunchLength=%.4f/%.4f EnergySpread=%.4f/%.4f" % (
+                deriv, zoom, len(vals["/BunchLength/data"]), vals["/BunchLength/data"][0], vals["/BunchLength/data"][-1],
+                vals["/EnergySpread/data"][0], vals["/EnergySpread/data"][-1]))
             ctx.count("binary-run")
+            case = dict(kind="binary", deriv=deriv, zoom=zoom, cmd=" ".join(cmd[2:]))
             for ds, nums in vals.items():
-                if len(nums) >= 4:
-                    fin = nums[-1]
-                    if not (0.85 <= fin <= 1.1):
-                        ctx.violation("impl-oracle", "%s of the program run without impedance does not settle near 1" % ds,
-                                      case=dict(kind="binary", deriv=deriv, zoom=zoom, cmd=" ".join(cmd)), observed=fin, expected="1 +- discretisation",
-                                      sig=dict(kind="binary", clause="equilibrium", deriv=deriv))
-                    ctx.case_done(("bin", deriv, zoom, ds), True)
+                if len(nums) < 20:
+                    raise RuntimeError("too few records in %s" % ds)
+                fin = nums[-1]
+                if not (0.93 <= fin <= 1.05):
+                    ctx.violation("impl-oracle", "%s of the program run without impedance does not settle at 1" % ds,
+                                  case=case, observed=fin, expected="1 within the discretisation error (0.93..1.05)",
+                                  sig=dict(kind="binary", clause="equilibrium", deriv=deriv))
+                for a, b in zip(nums, nums[1:]):
+                    if abs(a - fin) < 0.03:
+                        break
+                    if not ((a > fin and fin - 0.01 < b < a) or (a < fin and a < b < fin + 0.01)):
+                        ctx.violation("impl-oracle", "%s does not approach its limit monotonically (one record per period)" % ds,
+                                      case=case, observed=[a, b], expected="towards %.4f" % fin,
+                                      sig=dict(kind="binary", clause="monotone", deriv=deriv))
+                        break
+                ctx.case_done(("bin", deriv, zoom, ds), True)
 
 
 def run(ctx):
@@ -416,10 +431,7 @@ def run(ctx):
     ctx.sample(cases[0].describe())
     ctx.sample(cases[4].describe())
     if not ctx.quick():
-        try:
-            binary_run(ctx)
-        except Exception as e:
-            ctx.notes.append("binary run skipped: %r" % (e,))
+        binary_run(ctx)
     ctx.extra["correspondence_disagreements"] = len(dis)
     ctx.assumptions += ["exact-arithmetic model; float accumulation over hundreds of steps handled by a relative tolerance (2e-4 of the moment scale)",
                         "the link 'RF kick and drift transport second moments as the recurrence says' is checked on the implementation only (no theorem yet)",
